@@ -227,6 +227,62 @@ def t_block(E, n):
     E.prove(r.is_error(cassette.CRCError), 'a changed data byte is rejected by the CRC check')
 
 
+class _MFile(object):
+    """A file opened by BLOAD: header fields and the bytes read() delivers."""
+    _pyvc_trusted = True
+    def __init__(self, seg, offset, length, data):
+        self.seg, self.offset, self.length, self.data = seg, offset, length, data
+    def read(self):
+        return self.data
+    def __enter__(self):
+        return self
+    def __exit__(self, *a):
+        return False
+
+
+class _Files(object):
+    _pyvc_trusted = True
+    def __init__(self, f):
+        self.f = f
+    def open(self, *a, **kw):
+        return self.f
+
+
+def t_bload(E, n, device):
+    """BLOAD stores exactly the image: a cassette file is the image itself, a disk file is the image
+    followed by an end-of-file marker."""
+    from pcbasic.basic import machine
+    image = [E.int('img[%d]' % i, 0, 255) for i in range(n)]
+    data = image + ([0x1a] if device == 'disk' else [])
+    f = _MFile(0xb800, 0x10, n, SBuf(data, 'bytes') if E.mode == 'symbolic' else bytes(data))
+    m = object.__new__(machine.Memory)
+    class _P(object):
+        _pyvc_trusted = True
+        protected = False
+    class _DS(object):
+        _pyvc_trusted = True
+        program = _P()
+    m._memory = _DS()
+    m._files = _Files(f)
+    m._syntax = 'advanced'
+    m._values = values_env(with_strings=True)
+    stored = []
+    if E.mode == 'symbolic':
+        E.interp.contracts[machine.Memory._set_memory_block] = lambda I, args, kw: stored.append((args[1], list(to_cells(args[2]))))
+    else:
+        m._set_memory_block = lambda addr, buf: stored.append((addr, list(buf)))
+    name = new_string(E, m._values, b'CAS1:BLK')
+    r = E.call(m.bload_, iter([name, None]))
+    E.prove(not r.raised and len(stored) == 1, 'BLOAD stores one block')
+    if r.raised or len(stored) != 1:
+        return
+    addr, buf = stored[0]
+    E.prove(addr == 0xb800 * 16 + 0x10, 'at the address recorded in the header')
+    E.prove(len(buf) == n, 'exactly the image: no byte dropped, the end-of-file marker of a disk file not stored')
+    if len(buf) == n:
+        E.prove(cells_equal(buf, image), 'with the bytes that were saved')
+
+
 TASKS = [
     Task('text/data file framing', t_text_file, timeout_ms=20000,
          cases=[{'L': L, 'pattern': p, 'ftype': t} for L, p, t in (
@@ -236,6 +292,7 @@ TASKS = [
     Task('binary file framing', t_binary_file,
          cases=[{'L': L, 'ftype': t} for L, t in ((1, b'B'), (3, b'B'), (255, b'P'), (256, b'M'), (257, b'B'), (600, b'P'))]),
     Task('block and CRC', t_block, cases=[{'n': n} for n in (1, 17, 256)]),
+    Task('Memory.bload_ (image read back whole)', t_bload, cases=[{'n': n, 'device': d} for n in (1, 4, 10) for d in ('cassette', 'disk')]),
 ]
 
 ASSUMPTIONS = [
